@@ -2,7 +2,10 @@
 
 package main
 
-import "fmt"
+import (
+	"fmt"
+	"strings"
+)
 
 // Directed histories, run before the random ones on every seed. They pin the boundary cases of
 // both history encodings: read exactly at / just before / just after a change, first and last
@@ -224,6 +227,90 @@ func corpus() []scenario {
 		st(v, "sa 2 sk 0 9"), // 5': 0x2, created at 5
 		st(v, ""),
 	}
+	// BYTE BOUNDARY (round 5). Addresses and slots whose big-endian bytes end in 0xff, each with the
+	// address / slot right above it (universe "ff", reads.go). The new backend purges a contract with a
+	// prefix DeleteRange over bucket ++ address and reads its histories through iterators bounded on
+	// bucket ++ address [++ slot]: the bound of a prefix ending in 0xff needs the carry into the byte
+	// before the run. Contracts 0x200, 0x10000, 2^250 (the upper neighbours) are deployed FIRST and
+	// filled; then 0x1ff, 0xffff, 2^250-1 are deployed right below them, written, and their deployments
+	// reverted, re-applied, reverted again: every read of the neighbours — head (leaf nodes by path) and
+	// historical — must be untouched, on both backends. Then the iterator shapes: an entry of the upper
+	// neighbour (address for nonce / class hash, slot for storage) exactly at the block that is read,
+	// while the key ending in 0xff has no entry at or after it.
+	k1 := "3ffffffffffffffffffffffffffffffffffffffffffffffffffffffffffffff" // 2^250 - 1
+	k2 := "400000000000000000000000000000000000000000000000000000000000000" // 2^250
+	m1, p0 := k1, k2                                                        // the same pair as addresses (trie keys have 251 bits)
+	boundary := []Step{
+		st(v, "d 200 c000 sa 200 sk ff 7 sk 100 8 sk 0 1 n 200 1"),                                      // 0
+		st(v, "d 10000 c001 sa 10000 sk ff 3 sk "+k1+" 4 d "+p0+" c002 sa "+p0+" sk 100 9 sk "+k2+" 2"), // 1
+		st(v, "d 1ff c001 sa 1ff sk ff 5 sk 100 6"),                                                     // 2: right below 0x200
+		rv, // purge of 0x1ff: the nodes of 0x200 .. 0x2fe must stay
+		st(v, "d ffff c002 sa ffff sk 0 4 d "+m1+" c000 sa "+m1+" sk ff 1 sk "+k1+" 3"), // 2'
+		st(v, "n 200 2 sa 200 sk 100 9 n 10000 1"),                                      // 3
+		rv, rv, // purge of 0xffff and of 2^250-1
+		st(v, "d 1ff c002 d ffff c000 d "+m1+" c001 sa 1ff sk "+k1+" 2"), // 2'': all three at once
+		st(v, "sa 1ff sk "+k2+" 6 sa 200 sk ff 0 n 1ff 1 r 200 c003"),    // 3'
+		st(v, "n 200 3 r 10000 c002 sa 200 sk 100 2 sa "+p0+" sk 0 1"),   // 4: entries of the upper neighbours at block 4
+		st(v, "sa 200 sk "+k2+" 5 n "+p0+" 1"),                           // 5
+		rv, rv, rv, rv,                                                   // back to head 1
+		st(v, "sa 200 sk ff 2"),
+	}
+	// slots only: one contract, the slot pairs (0xff, 0x100) and (2^250-1, 2^250) written at different
+	// blocks so that for each pair there is a block where only the UPPER slot has an entry
+	boundarySlots := []Step{
+		st(v, "d 200 c000 sa 200 sk ff 1 sk "+k1+" 2"), // 0
+		st(v, ""),                            // 1
+		st(v, "sa 200 sk 100 3 sk "+k2+" 4"), // 2: first entries of the upper slots
+		st(v, "sa 200 sk 100 5"),             // 3
+		st(v, "sa 200 sk ff 0 sk "+k2+" 0"),  // 4
+		rv, rv,                               // head 2
+		st(v, "sa 200 sk "+k2+" 7 sa 1 sk ff 1 sk 100 2"), // 3'
+		st(v, "sa 1 sk 100 3"),                            // 4'
+	}
+	// WIDE BLOCKS (round 5): State.commit (new) and updateContractStorages (legacy) commit the storage of
+	// the contracts of a block in a worker pool of GOMAXPROCS goroutines, heaviest contract first, and
+	// merge the results; blocks that touch 40 contracts (+ the system contracts) at once — deployments,
+	// writes of different sizes per contract, deletes, nonces, class replacements — and their reverts.
+	all := func(f func(i int) string) string {
+		var parts []string
+		for i := 0; i < wideContracts; i++ {
+			if t := f(i); t != "" {
+				parts = append(parts, t)
+			}
+		}
+		return strings.Join(parts, " ")
+	}
+	wide := []Step{
+		st(v, all(func(i int) string { return fmt.Sprintf("d %x c00%d sa %x sk 2 %x", 0x300+i, i%3, 0x300+i, i+1) })),
+		st(v, "sa 1 sk 2 5 "+all(func(i int) string {
+			if i%2 == 0 {
+				return fmt.Sprintf("sa %x sk 2 %x sk 3 %x", 0x300+i, i+2, i+1)
+			}
+			return fmt.Sprintf("sa %x sk 3 %x", 0x300+i, i+1)
+		})),
+		st(v, all(func(i int) string {
+			switch i % 4 {
+			case 0:
+				return fmt.Sprintf("n %x 1 r %x c003", 0x300+i, 0x300+i)
+			case 1:
+				return fmt.Sprintf("sa %x sk 2 0 sk 3 0", 0x300+i)
+			case 2:
+				return fmt.Sprintf("n %x 2", 0x300+i)
+			}
+			return ""
+		})),
+		rv,
+		st(v, all(func(i int) string { return fmt.Sprintf("sa %x sk 2 0", 0x300+i) })+" sa 2 sk 3 1"),
+		rv, rv,
+		st(v, all(func(i int) string { return fmt.Sprintf("n %x %x", 0x300+i, i+1) })),
+		rv, rv,
+		st(v, all(func(i int) string {
+			if i%3 == 0 {
+				return fmt.Sprintf("d %x c001 sa %x sk 3 7", 0x300+i, 0x300+i)
+			}
+			return ""
+		})),
+	}
 	var out []scenario
 	add := func(name string, srcNew bool, dst []bool, drainOK bool, steps []Step) {
 		// the directed histories alternate between the two ways a Blockchain is built
@@ -260,7 +347,13 @@ func corpus() []scenario {
 		scenario{cfg: Config{Name: "retention-floor/src-legacy", SrcNew: false, Dst: both, Seeded: true}, steps: floor},
 		scenario{cfg: Config{Name: "retention-floor/src-new", SrcNew: true, Dst: both, Seeded: true}, steps: floor},
 		// the same steps on processes with an unseeded floor: deleting commitments changes nothing
-		scenario{cfg: Config{Name: "retention-floor/unseeded", SrcNew: true, Dst: both}, steps: floor})
+		scenario{cfg: Config{Name: "retention-floor/unseeded", SrcNew: true, Dst: both}, steps: floor},
+		scenario{cfg: Config{Name: "byte-boundary/src-legacy", SrcNew: false, Dst: both, Univ: "ff"}, steps: boundary},
+		scenario{cfg: Config{Name: "byte-boundary/src-new", SrcNew: true, Dst: both, Univ: "ff", Seeded: true}, steps: boundary},
+		scenario{cfg: Config{Name: "byte-boundary-slots/src-new", SrcNew: true, Dst: both, Univ: "ff"}, steps: boundarySlots},
+		scenario{cfg: Config{Name: "byte-boundary-slots/src-legacy", SrcNew: false, Dst: both, Univ: "ff", Seeded: true}, steps: boundarySlots},
+		scenario{cfg: Config{Name: "wide-blocks/src-legacy", SrcNew: false, Dst: both, Univ: "wide"}, steps: wide},
+		scenario{cfg: Config{Name: "wide-blocks/src-new", SrcNew: true, Dst: both, Univ: "wide", Seeded: true}, steps: wide})
 	return out
 }
 
